@@ -72,6 +72,8 @@ def gen(ctx):
     n = 200 if ctx.quick else 700
     games = [(gen_games.FIG55, gen_games.FIG55_META)]
     games += gen_games.pattern_games(3)
+    import solvecommon
+    games += [gm for gm in solvecommon.corpus_games() if not gm[1].get("patient") and gm[1]["style"] == "corpus" and not gm[1].get("guard")]
     rnd = gen_games.mixed_games(ctx.rng, n, styles=("stopping", "exact"))
     games += rnd
     # descriptions a careless solver could disturb in other places than a row: several final states listed in
